@@ -1086,8 +1086,10 @@ fn bytes_lit(b: &[u8]) -> String {
     s
 }
 
-fn reg_file(c: &RegCase) -> String {
+/// the source file of one registry and, per vector, the first line of its test function
+fn reg_file(c: &RegCase) -> (String, Vec<usize>) {
     let mut s = String::new();
+    let mut lines = vec![];
     let _ = writeln!(s, "// registry {} ({})", c.k, c.name);
     s.push_str(&c.module_src);
     s.push('\n');
@@ -1100,6 +1102,7 @@ fn reg_file(c: &RegCase) -> String {
     }
     // one function per vector keeps the stack frames of debug builds small
     for (i, v) in c.vectors.iter().enumerate() {
+        lines.push(s.matches('\n').count() + 1);
         let _ = writeln!(s, "fn v{i}(st: &mut crate::support::Stats) {{");
         match &v.up {
             None => {
@@ -1120,7 +1123,7 @@ fn reg_file(c: &RegCase) -> String {
         let _ = writeln!(s, "v{i}(st);");
     }
     let _ = writeln!(s, "}}");
-    s
+    (s, lines)
 }
 
 struct Scratch {
@@ -1136,7 +1139,8 @@ impl Drop for Scratch {
     }
 }
 
-fn write_project(dir: &Path, groups: &[Vec<&RegCase>]) {
+fn write_project(dir: &Path, groups: &[Vec<&RegCase>]) -> BTreeMap<usize, Vec<usize>> {
+    let mut line_map = BTreeMap::new();
     std::fs::create_dir_all(dir.join(".cargo")).unwrap();
     std::fs::write(
         dir.join("Cargo.toml"),
@@ -1155,7 +1159,9 @@ fn write_project(dir: &Path, groups: &[Vec<&RegCase>]) {
         let mut main = String::from("#![allow(warnings)]\n#![recursion_limit = \"1024\"]\nmod support;\n");
         for c in g {
             let _ = writeln!(main, "mod r_{};", c.k);
-            std::fs::write(bdir.join(format!("r_{}.rs", c.k)), reg_file(c)).unwrap();
+            let (src, lines) = reg_file(c);
+            line_map.insert(c.k, lines);
+            std::fs::write(bdir.join(format!("r_{}.rs", c.k)), src).unwrap();
         }
         main.push_str("fn all(st: &mut support::Stats) {\n");
         for c in g {
@@ -1164,6 +1170,7 @@ fn write_project(dir: &Path, groups: &[Vec<&RegCase>]) {
         main.push_str("}\nfn main() { support::main_with(all); }\n");
         std::fs::write(bdir.join("main.rs"), main).unwrap();
     }
+    line_map
 }
 
 fn run_cmd(cmd: &mut std::process::Command) -> (bool, String) {
@@ -1208,8 +1215,13 @@ pub fn run(o: &Opts) -> Value {
     if let Some(rp) = &o.replay {
         let v: Value = serde_json::from_str(&std::fs::read_to_string(rp).expect("replay file")).expect("replay json");
         let input = if v.get("input").is_some() { v["input"].clone() } else { v };
-        let reg = reggen::to_registry(&input["registry"]);
-        add("replay", input["registry"].clone(), &reg, true, &mut cases, &mut counts);
+        if input["registry"].as_str().map(|t| t.starts_with("polkadot")).unwrap_or(false) {
+            let reg = crate::util::polkadot_registry();
+            add("polkadot", Value::Null, &reg, true, &mut cases, &mut counts);
+        } else {
+            let reg = reggen::to_registry(&input["registry"]);
+            add("replay", input["registry"].clone(), &reg, true, &mut cases, &mut counts);
+        }
     } else {
         let usable = |p: &Program, counts: &mut Counts| -> bool {
             if param_only_recursive(p) {
@@ -1310,7 +1322,7 @@ pub fn run(o: &Opts) -> Value {
     let dir = o.scratch.clone().unwrap_or_else(|| std::env::temp_dir().join(format!("ct_{}", std::process::id())));
     let _ = std::fs::remove_dir_all(&dir);
     let scratch = Scratch { dir: dir.clone(), keep: o.keep };
-    write_project(&dir, &groups);
+    let line_map = write_project(&dir, &groups);
     let real: Vec<&RegCase> = cases.iter().filter(|c| c.expect_fail.is_none()).collect();
     let src_bytes: usize = real.iter().map(|c| c.module_src.len()).sum();
 
@@ -1369,7 +1381,20 @@ pub fn run(o: &Opts) -> Value {
             continue;
         }
         unexpected.extend(lines.iter());
-        let p = write_replay(c, json!({"rustc_errors": lines.iter().take(20).collect::<Vec<_>>(), "n_errors": lines.len()}));
+        // an error inside the test function of a vector names the type id whose generated type is not usable
+        let at_vector = lines.iter().find_map(|l| {
+            let ln: usize = l.split(".rs:").nth(1)?.split(':').next()?.parse().ok()?;
+            let starts = line_map.get(r)?;
+            let i = starts.iter().rposition(|s| *s <= ln)?;
+            if ln > starts[i] + 2 {
+                return None;
+            }
+            let v = c.vectors.get(i)?;
+            Some(json!({"type_id": v.id, "variant_index": v.variant, "generated_type": v.ty, "bytes_hex": hexs(&v.bytes), "vector": v.tag, "error": l}))
+        });
+        let p = write_replay(c, json!({"rustc_errors": lines.iter().take(20).collect::<Vec<_>>(), "n_errors": lines.len(),
+                                        "happened": "the generated code does not compile (cargo build --offline, parity-scale-codec 3.6.12 derives)",
+                                        "first_error_at_vector": at_vector}));
         failures.push(json!({"kind": "rustc", "registry": c.k, "name": c.name, "replay": p, "first": lines[0]}));
     }
     unexpected.extend(other_errors.iter());
@@ -1493,7 +1518,7 @@ pub fn main(args: &[String]) -> i32 {
         polkadot: false,
         scratch: None,
         keep: false,
-        nrandom: 40,
+        nrandom: 100,
         replay: None,
     };
     let mut i = 2;
@@ -1516,7 +1541,7 @@ pub fn main(args: &[String]) -> i32 {
                 i += 1;
             }
             "--random" => {
-                o.nrandom = args[i + 1].parse().unwrap_or(40);
+                o.nrandom = args[i + 1].parse().unwrap_or(100);
                 i += 2;
             }
             "--replay" => {
